@@ -338,8 +338,30 @@ impl Context {
         task.set_data(&self.vars());
         self.emit_task(task)?;
 
-        // abort all running task
         let ctx = self;
+
+        // the whole process is going to be aborted, close the tasks that are still open
+        // in the other branches before the ancestors (and finally the workflow) are aborted
+        let mut ancestors = Vec::new();
+        let mut parent = task.parent();
+        while let Some(p) = parent {
+            ancestors.push(p.id.clone());
+            parent = p.parent();
+        }
+        for t in self.proc.tasks() {
+            let state = t.state();
+            if state.is_completed() || state.is_none() || ancestors.contains(&t.id) {
+                continue;
+            }
+            if state.is_pending() {
+                t.set_state(TaskState::Skipped);
+            } else {
+                t.set_state(TaskState::Aborted);
+            }
+            ctx.emit_task(&t)?;
+        }
+
+        // abort all running task
         let mut parent = task.parent();
         while let Some(task) = parent {
             task.set_state(TaskState::Aborted);
